@@ -181,6 +181,20 @@ class Session:
         return results
 
     def triage(self):
+        dead_covers = []
+        self._triage_main(dead_covers)
+        # an individual unreachable path is dead code, not a problem; ALL paths of a function unreachable means its
+        # hypotheses (precondition / assumed callee contracts) are contradictory
+        by_fn = {}
+        for o in self.obligations:
+            if o.kind == "cover" and not o.id.endswith("/cover-pre"):
+                by_fn.setdefault(o.id.rsplit("/", 1)[0], []).append(o)
+        for fn, covers in by_fn.items():
+            if covers and all(c in dead_covers for c in covers):
+                self.undecided.append(dict(what=fn, reason="no path of this function is reachable under its hypotheses (vacuous)"))
+        self.dead_covers = [o.id for o in dead_covers]
+
+    def _triage_main(self, dead_covers):
         for o in self.obligations:
             r = o.verdict["result"]
             if r in ("error", "disagree"):
@@ -190,8 +204,10 @@ class Session:
                 if r == "unsat":
                     if o.kind == "canary":
                         self.errors.append(f"{o.id}: canary was proved - the engine is vacuous")
+                    elif o.id.endswith("/cover-pre"):
+                        self.undecided.append(dict(what=o.id, reason="the precondition is unsatisfiable (vacuous contract)"))
                     else:
-                        self.undecided.append(dict(what=o.id, reason="cover not reachable (path or precondition infeasible)"))
+                        dead_covers.append(o)
                 continue
             if r == "unsat":
                 continue
